@@ -146,8 +146,9 @@ class Repo:
                 tree = ast.parse(src, filename=str(path))
             except SyntaxError as e:  # the tree under analysis must parse
                 raise Unsupported(f'{rel}: does not parse: {e}') from e
-            from .inline import expand_keyword_dicts, inline_local_procedures, inline_unknown_functions
+            from .inline import expand_keyword_dicts, inline_local_procedures, inline_unknown_functions, inline_unknown_nested
             inline_local_procedures(tree)
+            inline_unknown_nested(tree)
             expand_keyword_dicts(tree)
             kn = _known_names().get(str(rel))
             if kn is not None:
